@@ -191,7 +191,15 @@ pub fn run_blind(c: &mut Cfb, script: &[BOp], st: &mut BlindStats, trace: &mut V
                 let l = listing(c, 300)?;
                 for (p, is_stream) in l.iter() {
                     st.calls += 4;
-                    guard("entry", || c.entry(p).is_ok())?;
+                    // every accessor and the Debug text of the entry (damaged timestamps, sizes)
+                    guard("entry", || {
+                        c.entry(p)
+                            .map(|e| {
+                                let _ = (e.name().len(), e.path().as_os_str().len(), e.is_root(), e.is_stream(), e.is_storage(), e.len(), e.is_empty(), *e.clsid(), e.state_bits(), e.created(), e.modified());
+                                format!("{:?}", e).len()
+                            })
+                            .is_ok()
+                    })?;
                     guard("exists", || c.exists(p))?;
                     guard("is_stream", || c.is_stream(p))?;
                     guard("is_storage", || c.is_storage(p))?;
